@@ -29,11 +29,14 @@ JudgePair(o) ==
 JudgeObj(o) ==
     LET A == o.a
     IN /\ Chk(o.real = ImplCA(A, Known(o.o), FALSE), o.tid, "drift:can_assign_literal")
-       /\ Chk(Static(A) => (o.real = Member(o.o, A)), o.tid, "viol:LiteralMembership")
-       /\ Chk((Static(A) /\ o.rt # "n/a") => ((o.rt = "yes") = Member(o.o, A)), o.tid, "viol:RuntimeIsAssignable")
+       /\ Chk(Static(A) => (o.real = Member(o.o, A)), o.tid,
+              IF Dev_MergedSiblingLiterals(o.o) THEN "dev:equal-sibling-literals-merged" ELSE "viol:LiteralMembership")
+       /\ Chk((Static(A) /\ o.rt # "n/a") => ((o.rt = "yes") = Member(o.o, A)), o.tid,
+              IF Dev_MergedSiblingLiterals(o.o) THEN "dev:equal-sibling-literals-merged" ELSE "viol:RuntimeIsAssignable")
 
 \* `x: A = <literal o>` checked by the visitor: diagnosed iff o is not a member of A
-JudgeSnip(o) == Chk(C03Domain(o.a) => (o.diagnosed = ~Member(o.o, o.a)), o.tid, "viol:SnippetVerdict")
+JudgeSnip(o) == Chk(C03Domain(o.a) => (o.diagnosed = ~Member(o.o, o.a)), o.tid,
+                    IF Dev_MergedSiblingLiterals(o.o) THEN "dev:equal-sibling-literals-merged" ELSE "viol:SnippetVerdict")
 
 TInit == l = 1 /\ stage = "trace" /\ ta = Never /\ tb = Never /\ ob = NONE
 TNext ==
